@@ -133,6 +133,11 @@ func (c *layer2Controller) SetBalancer(l log.Logger, name string, lbIPs []net.IP
 			level.Warn(l).Log("op", "SetBalancer", "protocol", "layer2", "service", name, "IPAdvertisement", ipAdv,
 				"localIfs", ifs, "msg", "the specified interfaces used to announce LB IP don't exist")
 			client.Errorf(svc, "announceFailed", "the interfaces specified by LB IP %q doesn't exist in assigned node %q with protocol %q", lbIP.String(), c.myNode, config.Layer2)
+			// An advertisement made when the interfaces still matched must not survive.
+			if c.announcer.AnnounceName(name) {
+				c.announcer.DeleteBalancer(name)
+				updateStatus = true
+			}
 			continue
 		}
 		c.announcer.SetBalancer(name, ipAdv)
